@@ -43,7 +43,8 @@ package config
 //@   requires c != nil
 //@   assert_at[C15] NewSecretKeyFromPrimes "paillier.NewSecretKeyFromPrimes(cm.P, cm.Q)": arg0 != nil && arg1 != nil && nbits(natval(arg0)) == 1024 && nbits(natval(arg1)) == 1024
 //@   assert_at[C15] NewPublicKey "paillier.NewPublicKey(p.N)": arg0 != nil && nbits(natval(arg0)) == 2048
-//@   assert_at[C15] New "Pedersen: pedersen.New(paillierPublic.Modulus(), p.S, p.T)": arg1 != nil && arg2 != nil
+//@   assert_at[C15] New "Pedersen: pedersen.New(paillierPublic.Modulus(), p.S, p.T)": arg1 != nil && arg2 != nil && pedersen.pedvalid(arg0.Modulus, arg1, arg2)
+//@   assert_at[C15] New "Pedersen: pedersen.New(paillierSecret.Modulus(), p.S, p.T)": pedersen.pedvalid(arg0.Modulus, arg1, arg2)
 //@   ensures[C15,C20] result == nil ==> (c.Threshold >= 0 && c.Threshold < len(c.Public) && indom(c.Public, c.ID))
 // (that a restored configuration satisfies cfgwf -- every party record complete -- needs a quantified invariant over
 // the map under construction, with a fresh record stored per iteration; the solvers return unknown on its
